@@ -398,6 +398,8 @@ def fold_results(v, results, judges, pid):
         for u in r.get('unsupported', []):
             v.undecided.append({'unit': r['name'], 'why': u})
         unit['unsupported'] = r.get('unsupported', [])[:5]
+        if r.get('paths', 0) == 0 and r.get('unsupported') and not r.get('timeout') and not r['obligations']:
+            v.engine_errors.append(f"unit {r['name']}: every path hit a construct outside the executor's subset ({r['unsupported'][0][:120]}) - nothing decided")
         if r.get('paths', 0) == 0 and not r.get('unsupported') and not r.get('error') and not r.get('timeout'):
             v.engine_errors.append(f"unit {r['name']}: no feasible path reached the post-condition (vacuous pre-state)")
         counts = {'unsat': 0, 'tol': 0, 'viol': 0, 'unknown': 0}
